@@ -58,6 +58,7 @@ type Task struct {
 	prio    int
 	waitOn  string // description of what a blocked-sim task waits for
 	Harness bool   // harness-owned task (not SUT code)
+	Steps   int    // times this task was released
 	daemon  bool
 }
 
@@ -152,6 +153,7 @@ type Sched struct {
 	goids    []goidEntry
 	stalled  int
 	inStable bool
+	stableSteps int
 }
 
 type goidEntry struct {
@@ -483,7 +485,7 @@ func (s *Sched) loop() {
 		}
 		if len(s.ready) == 0 {
 			s.mu.Unlock()
-			if s.cfg.Stable != nil && !s.inStable {
+			if s.cfg.Stable != nil && !s.inStable && s.steps != s.stableSteps {
 				s.inStable = true
 				s.out.StablePoints++
 				if s.cfg.Stable() {
@@ -491,8 +493,14 @@ func (s *Sched) loop() {
 				}
 			}
 			s.inStable = false
-			// Nothing can happen at this fake instant any more. Block: synctest advances
-			// the clock to the next timer once every goroutine is durably blocked.
+			s.stableSteps = s.steps
+			// Nothing can happen at this fake instant any more. Every kick received so far is
+			// stale (all goroutines are durably blocked and nothing is ready). Block:
+			// synctest advances the clock to the next timer.
+			select {
+			case <-s.notify:
+			default:
+			}
 			tm := time.NewTimer(s.cfg.Horizon)
 			select {
 			case <-s.notify:
@@ -548,6 +556,7 @@ func (s *Sched) loop() {
 		s.cur = t
 		s.last = t
 		s.steps++
+		t.Steps++
 		if s.cfg.OnStep != nil {
 			s.cfg.OnStep(s.steps, t, len(s.ready)+1)
 		}
@@ -702,4 +711,12 @@ func goid() uint64 {
 		id = id*10 + uint64(c-'0')
 	}
 	return id
+}
+
+// OtherSteps is the number of scheduling steps taken by tasks other than t.
+func OtherSteps(t *Task) int {
+	if S == nil || t == nil {
+		return 0
+	}
+	return S.steps - t.Steps
 }
